@@ -160,6 +160,9 @@ def scenarios(tier, seed):
             return [["rot", "q", "Y", ["tpl", "b"], 1], ["rot", "q", "Z", ["tpl", "a"], 2]], ["a", "b"]
         if kind == "rot_meas":
             return [["rot", "q", "Y", ["tpl", "a"], 4], ["m", "q", ["newf", "n"], True]], ["a"]
+        if kind == "rot_measR":
+            # results that live in registers (measure(store_array=False)): registers-to-return and used measurement registers
+            return [["rot", "q", "Y", ["tpl", "a"], 2], ["m", "q", ["newr", "r0"], True]], ["a"]
         if kind == "rot_measA":
             return [["rot", "q", "Z", ["tpl", "a"], 0], ["m", "q", ["f", "A", 1], True], ["add", ["f", "A", 0], ["k"], None]], ["a"]
         if kind == "rot_cnot":
@@ -168,11 +171,12 @@ def scenarios(tier, seed):
             return [["if", "eq", ["f", "A", 0], ["k"], "ctx", [["rot", "q", "X", ["tpl", "a"], 1]]]], ["a"]
         raise KeyError(kind)
 
-    mids = {"none": [], "array": [["arr", "M", ["k"]]], "measure": [["m", "q", ["newf", "mm"], True]], "add": [["add", ["f", "A", 0], ["k"], None]]}
+    mids = {"none": [], "array": [["arr", "M", ["k"]]], "measure": [["m", "q", ["newf", "mm"], True]], "add": [["add", ["f", "A", 0], ["k"], None]],
+            "measureR": [["m", "q", ["newr", "mr"], True]]}
     posts = {"none": [], "gate": [["g", "q", "X"]], "measure": [["m", "q", ["newf", "pp"], True]], "add": [["add", ["f", "A", 1], ["k"], None]],
-             "array": [["arr", "P", ["k", "k"]]]}
+             "array": [["arr", "P", ["k", "k"]]], "measureR": [["m", "q", ["newr", "pr"], True]]}
     out = []
-    kinds = ["rot1", "rot2", "rot2rev", "rot_meas", "rot_measA", "rot_cnot", "rot_if"]
+    kinds = ["rot1", "rot2", "rot2rev", "rot_meas", "rot_measR", "rot_measA", "rot_cnot", "rot_if"]
     for kind in kinds:
         ops, names = tpl_ops(kind)
         for pre_flush in (False, True):
@@ -180,7 +184,7 @@ def scenarios(tier, seed):
                 for post in posts:
                     for nv in (False, True):
                         for order in (("natural", "reversed") if len(names) > 1 else ("natural",)):
-                            if tier != "thorough" and (hash((kind, pre_flush, mid, post, nv, order)) % 3) and not (mid == "none" and post in ("none", "measure")):
+                            if tier != "thorough" and (hash((kind, pre_flush, mid, post, nv, order)) % 3) and not (mid == "none" and post in ("none", "measure", "measureR")):
                                 continue
                             prog = DECL + Q + ([["flush"]] if pre_flush else []) + ops + [["compile"]] + mids[mid] + [["commit"]] + posts[post] + [["flush"]]
                             # a second flush with more work, to expose arrays that are re-declared / erased later
